@@ -521,6 +521,21 @@ func TestCheck(t *testing.T) {
 		})
 	})
 
+	r.Phase("C0: Ver values with numeric identifiers at and beyond 64 bits, with and without leading zeros, in either field and position", func() {
+		r.Serial(func(w *vkit.W) {
+			nums := []string{"0", "00", "01", "18446744073709551615", "18446744073709551616", "018446744073709551615", "018446744073709551616", "099999999999999999999", "99999999999999999999999", "000000000000000000000000", "9223372036854775808", "09223372036854775808"}
+			for _, n := range nums {
+				for _, shape := range []string{"%s", "rc.%s", "%s.rc", "a.%s.b", "%s.%s"} {
+					f := strings.ReplaceAll(shape, "%s", n)
+					for _, c := range []Case{{Kind: "ver", Major: 1, Pre: vkit.B(f)}, {Kind: "ver", Major: 1, Build: vkit.B(f)}, {Kind: "ver", Pre: vkit.B(f), Build: vkit.B(f)}} {
+						judge(c, w)
+						w.EvalRandom(vkit.Hash64("c0", string(c.Pre), string(c.Build)), true)
+					}
+				}
+			}
+		})
+	})
+
 	r.Phase("C: rapid Ver values (valid, one edit from valid, arbitrary bytes): Valid <=> round-trip", func() {
 		r.Rapid(t, "rapid-ver", 1, r.Pick(20000, 1000000), func(rt *rapid.T, w *vkit.W) vkit.RapidCase {
 			field := func(label string) string {
@@ -528,7 +543,7 @@ func TestCheck(t *testing.T) {
 				case 0:
 					return ""
 				case 1, 2:
-					ids := rapid.SliceOfN(rapid.OneOf(rapid.StringMatching(`[0-9a-zA-Z-]{1,5}`), rapid.StringMatching(`0[0-9]{0,3}`), rapid.StringMatching(`[1-9][0-9]{0,20}`)), 1, 4).Draw(rt, label+"Ids")
+					ids := rapid.SliceOfN(rapid.OneOf(rapid.StringMatching(`[0-9a-zA-Z-]{1,5}`), rapid.StringMatching(`0[0-9]{0,3}`), rapid.StringMatching(`[1-9][0-9]{0,20}`), rapid.StringMatching(`0[0-9]{18,26}`), rapid.SampledFrom([]string{"018446744073709551615", "018446744073709551616", "099999999999999999999", "000000000000000000000000", "18446744073709551616", "99999999999999999999999"})), 1, 4).Draw(rt, label+"Ids")
 					s := strings.Join(ids, ".")
 					if rapid.IntRange(0, 3).Draw(rt, label+"Edit") == 0 && len(s) > 0 {
 						pos := rapid.IntRange(0, len(s)-1).Draw(rt, label+"Pos")
